@@ -251,7 +251,9 @@ PROPS["C11"] = dict(
                  "'never favour a worse individual' clause). Kani: weight/rank kernels at enumerated sizes."),
     verus=[dict(name="driver", template="contracts/C11/driver.vrs", expect=["selection"]),
            dict(name="operators", template="contracts/C11/operators.vrs",
-                expect=["<LinearRank as Selection<P>>::select", "<RandomWithoutRepetition as Selection<P>>::select"])],
+                expect=["<LinearRank as Selection<P>>::select", "<RandomWithoutRepetition as Selection<P>>::select"]),
+           dict(name="simple_selections", template="contracts/C11/simple_selections.vrs",
+                expect=["<All as Selection<P>>::select", "<None as Selection<P>>::select", "<CloneSingle as Selection<P>>::select", "<FullyRandom as Selection<P>>::select"])],
     kani=[dict(files=["contracts/C11/c11.rs", "contracts/C11/c11_contracts.rs"],
                annotations=[dict(file="src/components/selection/functional.rs", impl="-", fn="objective_bounds", attrs=[
                    "kani::ensures(|r: &Option<(f64, f64)>| r.is_none() == population.is_empty())",
